@@ -97,6 +97,11 @@ def main():
         if not os.path.exists(os.path.join("/repo", rel)):
             continue
         lines, ss = sites(os.path.join("/repo", rel))
+        kinds = [k for k in os.environ.get("MC_KINDS", "").split(",") if k]
+        if kinds:
+            ss = [x for x in ss if x[-1] in kinds]
+        if os.environ.get("MC_FILES") and not __import__("re").search(os.environ["MC_FILES"], rel):
+            continue
         if not ss:
             continue
         fn, ln, c0, c1, old, new, kind = rng.choice(ss)
